@@ -34,6 +34,11 @@ LEVEL_TEXT = (
     "numerical statement (the condensed solve satisfies the original "
     "equations) follows from R3 by linear algebra and is not checked on "
     "numbers.")
+LEVEL_TEXT += (
+    " Added after the seeding phase: penalize decided by a symbolic run "
+    "(diagonal and right-hand side at D, copy unless overwrite) and its "
+    "default penalty is a single number (rank inference); index sets "
+    "returned by _flatten_dofs are repeat-free.")
 LEVEL_NOTE = (
     "Trusted: scipy.sparse indexing A[I][:, D], setdiag, numpy.setdiff1d / "
     "unique / arange / nonzero semantics. Not decided: floating-point "
